@@ -42,11 +42,11 @@ R_TECH = "stateless deviation-bounded DFS (model checking) of the real router fu
 def rtext(what):
     return "exhaustive enumeration, up to a deviation bound that is iterated per family, of every environment behaviour of the real router future (" + what + "); every execution is the implementation itself, polled only on wake-up, checked against a reference model at quiescence"
 checks += [
-    chk("C01", "routerlab", "model_checking", rtext("registration/frame arrival orders, ready/pending+wake of every subscriber sink operation, publisher delays, ends and idleness, StreamMap start index") + "; list-model oracle: each healthy subscriber holds a contiguous suffix of the consumption log starting no later than its adoption, fully flushed", R_NOTE, R_TECH, "DESIGN.md §3 C01"),
-    chk("C02", "routerlab", "model_checking", rtext("request interleavings of 1-3 requestors with colliding request ids and forged tags, replier bind time, pending/wake on every sink and stream, all Router hash orders, adversarial reply scripts") + "; oracle: requests at most once / in order / correctly tagged / exactly once under a stable replier, each valid reply exactly once to its requestor and nowhere else, tag stripped, flushed", R_NOTE, R_TECH, "DESIGN.md §3 C02"),
+    chk("C01", "routerlab+e2elab", "model_checking", rtext("registration/frame arrival orders, ready/pending+wake of every subscriber sink operation, publisher delays, ends and idleness, StreamMap start index") + "; list-model oracle: each healthy subscriber holds a contiguous suffix of the consumption log starting no later than its adoption, fully flushed", R_NOTE + "; server half (e2elab): a raw publisher whose byte stream reaches the real server in pieces (frames pipelined behind the registration before the Ok is read, one frame cut in two at every interesting offset): the subscriber must receive exactly the messages of that byte stream", R_TECH + " + enumeration of the cut points of a peer's byte stream over the real server", "DESIGN.md §3 C01, §5 C01/C02"),
+    chk("C02", "routerlab+e2elab", "model_checking", rtext("request interleavings of 1-3 requestors with colliding request ids and forged tags, replier bind time, pending/wake on every sink and stream, all Router hash orders, adversarial reply scripts") + "; oracle: requests at most once / in order / correctly tagged / exactly once under a stable replier, each valid reply exactly once to its requestor and nowhere else, tag stripped, flushed", R_NOTE + "; server half (e2elab): a raw requestor whose byte stream reaches the real server in pieces (requests pipelined behind the registration, one request cut in two at every interesting offset) must receive exactly the replies to its requests", R_TECH + " + enumeration of the cut points of a peer's byte stream over the real server", "DESIGN.md §3 C02, §5 C01/C02"),
     chk("C08", "routerlab+e2elab", "model_checking", rtext("the C01/C02/C10 families with error answers enabled on every sink operation and error items / early ends on every stream, plus FanoutMany and Router driven directly with every answer vector") + "; oracle: no panic, healthy peers keep their full C01/C02 obligations, a failed replier is unbound and the next one serves", R_NOTE + "; at most one injected error per mock half; server half (e2elab): on the real server every victim role {subscriber, publisher, replier, requestor} x every failure a real QUIC peer can produce {connection close, STOP_SENDING, RESET_STREAM, both, dropped stream, graceful finish, half a frame then end} x moment {idle, mid-stream, while blocking the topic by not reading, request in flight, reply after death}: the healthy peers must receive exactly what is owed, a new replier must be bound and serve; scheduling there is not controlled", R_TECH + " + exhaustive victim x failure x moment matrix over the real server", "DESIGN.md §3 C08, §5 C08"),
     chk("C09", "routerlab", "model_checking", rtext("all no-fault families of C01/C02/C10/C16 plus one-sided topologies (nobody, only subscribers, only publishers, only repliers, only requestors, replier leaves)") + "; oracles: step budget per poll (spin), 400-poll horizon (self-wake livelock), and a probe poll at every quiescent point that must make no observable progress (lost wake-up)", R_NOTE, R_TECH, "DESIGN.md §3 C09"),
-    chk("C10", "routerlab", "model_checking", rtext("1-3 repliers registering at every point of an exchange, departures of the bound one, pending/wake of the rejected replier's sink, two late repliers in one poll") + "; oracle: never two bound, a rejection is justified by an earlier still-bound replier and consists of exactly one replier-already-bound error followed by a completed close, a replier registering after the bound one ended is bound and served", R_NOTE, R_TECH, "DESIGN.md §3 C10"),
+    chk("C10", "routerlab+e2elab", "model_checking", rtext("1-3 repliers registering at every point of an exchange, departures of the bound one, pending/wake of the rejected replier's sink, two late repliers in one poll") + "; oracle: never two bound, a rejection is justified by an earlier still-bound replier and consists of exactly one replier-already-bound error followed by a completed close, a replier registering after the bound one ended is bound and served", R_NOTE + "; server half (e2elab): a real second replier - opened from the same client as the bound one or from another, with or without a retry budget - keeps registering while 30 requests must all be answered by the bound one; a raw rival whose stream grants 9..1024 bytes of credit must be told Ok, replier-already-bound and then see its stream end", R_TECH + " + rival matrix over the real server and client", "DESIGN.md §3 C10, §5 C10"),
     chk("C11", "routerlab+e2elab", "model_checking", rtext("every non-Message frame kind as 1st/2nd request or as a reply, requests that fit the frame limit only before the routing tag is added, all 8 kinds through the pub/sub router, each followed by a well-formed exchange") + "; oracle: no panic and the following exchange satisfies C01/C02", R_NOTE + "; server half (e2elab): first frame of every kind x topic state {fresh, pub/sub, req/rep} must be served (exercised with helper peers) or refused with an error code, follow-up frames of every kind per role, and the real client's open() against a fake server answering with every frame kind or closing; scheduling there is not controlled", R_TECH + " + exhaustive hostile-input matrix over the real server", "DESIGN.md §3 C11, §5 C11"),
     chk("C16", "routerlab+e2elab", "model_checking", rtext("close of the registration channel at every point of the pub/sub and req/rep families (idle, item buffered, flush pending, one side only, rejected replier pending) followed by every pending/wake outcome of the sinks") + "; oracle: the router future completes once every sink can accept data, and every frame taken from a publisher was handed over and flushed to every healthy subscriber first", R_NOTE + "; server half (e2elab): the real server in a child process is brought into 12 states by raw peers (incl. a registration parked on a peer that grants no flow-control credit), receives SIGINT and must exit with status 0 within 20 s", R_TECH + " + state matrix with SIGINT on the real server process", "DESIGN.md §3 C16"),
 ]
@@ -90,7 +90,7 @@ manifest = {
     "engines": [
         {"name": "wirelab", "path": "/verif/engines/wirelab", "serves_properties": ["C05", "C06", "C07", "C13", "C14"], "kind_free_text": "bounded-exhaustive enumeration of input/configuration spaces on the real codec, name, backoff and payload functions, with reference models; child-process isolation for crashes"},
         {"name": "routerlab", "path": "/verif/engines/routerlab", "serves_properties": ["C01", "C02", "C08", "C09", "C10", "C11", "C16"], "kind_free_text": "stateless deviation-bounded DFS over the real topic-router futures with mock peers and a wake-only executor"},
-        {"name": "e2elab", "path": "/verif/engines/e2elab", "serves_properties": ["C03", "C04", "C06", "C07", "C08", "C11", "C12", "C15", "C16", "C17"], "kind_free_text": "exhaustive finite matrices (configurations, reply orders, fault points and sequences) over the real server and client on loopback QUIC, raw peer and scripted fake server"},
+        {"name": "e2elab", "path": "/verif/engines/e2elab", "serves_properties": ["C01", "C02", "C03", "C04", "C06", "C07", "C08", "C10", "C11", "C12", "C15", "C16", "C17"], "kind_free_text": "exhaustive finite matrices (configurations, reply orders, fault points and sequences) over the real server and client on loopback QUIC, raw peer and scripted fake server"},
     ],
     "checks": checks,
     "not_applicable": [{"property_id": k, "reason": v} for k, v in sorted(pending.items()) if k not in claimed],
